@@ -404,9 +404,28 @@ func (ctrl *DefaultController) importLog(ctx context.Context, store Store, log l
 					}
 				case ledger.MetaTargetTypeAccount:
 					logging.FromContext(ctx).Debugf("Saving metadata of account %s", payload.TargetID)
-					if err := store.UpdateAccountsMetadata(ctx, ledger.AccountMetadata{
-						payload.TargetID.(string): payload.Metadata,
-					}, log.Date); err != nil {
+					address := payload.TargetID.(string)
+					// as for transactions, an account created by this write gets the default metadata of the schema the write named
+					var defaultMetadata metadata.Metadata
+					if log.SchemaVersion != "" {
+						schema, err := store.FindSchema(ctx, log.SchemaVersion)
+						if err != nil {
+							return nil, fmt.Errorf("failed to find schema: %w", err)
+						}
+						if accountSchema, _ := schema.Chart.FindAccountSchema(address); accountSchema != nil {
+							defaultMetadata = accountSchema.DefaultMetadata()
+						}
+					}
+					if err := store.UpsertAccounts(ctx, ledger.AccountWithDefaultMetadata{
+						Account: &ledger.Account{
+							Address:       address,
+							Metadata:      payload.Metadata,
+							FirstUsage:    log.Date,
+							InsertionDate: log.Date,
+							UpdatedAt:     log.Date,
+						},
+						DefaultMetadata: defaultMetadata,
+					}); err != nil {
 						return nil, fmt.Errorf("failed to update account metadata: %w", err)
 					}
 				}
